@@ -108,6 +108,11 @@ def gen_stages(rng, paired):
     return st
 
 
+def with_global(g, glob):
+    """Options that are not operations but parameters of several operations travel with every invocation."""
+    return list(g) + list(glob)
+
+
 def project(stages, which):
     """Single-end spelling of what the paired command does to mate `which`; None if it has no such spelling."""
     argv = []
@@ -210,13 +215,16 @@ def one_case(ctx, k):
     if len(stages) < 2:
         ctx.case(None)
         return
+    glob = ["--quality-base", "64"] if rng.random() < 0.15 else []
+    if glob:
+        ctx.count("option_sets_with_quality_base_64")
     recs1, recs2 = gen_reads(rng, rng.randint(15, 35), paired)
     d = os.path.join(ctx.scratch, f"c{k}")
     os.makedirs(d, exist_ok=True)
     try:
         inputs = climon.write_inputs(d, recs1, recs2)
         io = lambda t, ins=None: ["-o", f"{t}1.fq"] + (["-p", f"{t}2.fq"] if paired else []) + (ins or inputs)
-        allopts = [x for _, g in stages for x in g]
+        allopts = [x for _, g in stages for x in g] + glob
         argv = allopts + io("comb")
         case = climon.case_record(argv, d, inputs)
         case["k"] = k
@@ -237,6 +245,7 @@ def one_case(ctx, k):
             rng.shuffle(gs)
             # keep the relative order of the repeated options inside a group; groups themselves are permuted
             argv_p = [x for g in gs for x in g]
+            argv_p = (glob + argv_p) if rng.random() < 0.5 else (argv_p + glob)
             if rng.random() < 0.5:
                 # also move the io options to the front
                 argv_p = io(f"p{p}")[:-len(inputs)] + argv_p + inputs
@@ -263,7 +272,7 @@ def one_case(ctx, k):
                 chain.append((name, g))
         for i, (name, g) in enumerate(chain):
             outs = [f"ch{i}_1.fq"] + ([f"ch{i}_2.fq"] if paired else [])
-            a = g + ["-o", outs[0]] + (["-p", outs[1]] if paired else []) + cur
+            a = g + glob + ["-o", outs[0]] + (["-p", outs[1]] if paired else []) + cur
             rc_ = climon.run(d, a, tag=f"chain{i}", trace=False)
             ctx.count("chain_runs")
             if rc_.rc != 0:
@@ -286,7 +295,7 @@ def one_case(ctx, k):
                     ctx.count("projection_not_expressible")
                     continue
                 inp = inputs[which - 1]
-                rs = climon.run(d, pa + ["-o", f"se{which}.fq", inp], tag=f"se{which}", trace=False)
+                rs = climon.run(d, pa + glob + ["-o", f"se{which}.fq", inp], tag=f"se{which}", trace=False)
                 if rs.rc != 0:
                     if not pa:
                         # no option applies to this mate: it must be unchanged
